@@ -439,4 +439,10 @@ impl<T: ?Sized + Trace> Weak<T> {
     pub(crate) fn verif_metadata(&self) -> Option<NonNull<BoxedMetadata>> {
         self.metadata
     }
+
+    /// (Verification hook) Returns the pointer to the `CcBox`.
+    #[inline]
+    pub(crate) fn verif_cc(&self) -> NonNull<CcBox<T>> {
+        self.cc
+    }
 }
